@@ -363,6 +363,34 @@ func (e *engine) keyObject(pool *kslib.Pool, i int, pk *kslib.PoolKey, pt tinkpb
 					},
 				}, nil
 			}})
+			// the same constructor with big-endian / padded encodings of its inputs (leadzero.go)
+			for _, v := range leadZeroVariants(c.ins, c.build) {
+				v := v
+				e.o.Count("constructor-leadzero:" + c.api)
+				e.run(spec{api: c.api + v.tag, extra: "key=" + pk.Name + vtok, ins: v.ins, once: true, lays: leadZeroLayouts(), mk: func() (*inst, error) {
+					var obj any
+					return &inst{
+						call: func(ins [][]byte) ([][]byte, string) {
+							var err error
+							obj, err = c.build(ins)
+							return nil, errS(err)
+						},
+						observe: func() string {
+							if obj == nil {
+								return "no-object"
+							}
+							s := objObs(obj, v.twin) + "|" + objObs(obj, twin)
+							if k, ok := obj.(key.Key); ok {
+								s += "|" + handleOfHex(k)
+								if probe != nil && c.sameKey {
+									s += "|" + probe(k)
+								}
+							}
+							return s
+						},
+					}, nil
+				}})
+			}
 		}
 	}()
 }
